@@ -93,6 +93,23 @@ std::string make_bus_config(const std::string &policy_xml, const BusLimits &l, c
 
 static World *g_world = nullptr;
 
+// Link-time seam (no source change): bus_config_load() is called across object files (bus.c, config-parser.c), so
+// --wrap sees every load.  The harness only notes whether the outermost load of a ReloadConfig returned a parser:
+// an allocation failure before that point happened while the file was being parsed, one after it while the parsed
+// configuration was being put in force.
+extern "C" {
+struct BusConfigParser;
+BusConfigParser *__real_bus_config_load(const DBusString *file, dbus_bool_t is_toplevel, const BusConfigParser *parent, DBusError *error);
+static int g_config_load_depth = 0;
+BusConfigParser *__wrap_bus_config_load(const DBusString *file, dbus_bool_t is_toplevel, const BusConfigParser *parent, DBusError *error) {
+  g_config_load_depth++;
+  BusConfigParser *r = __real_bus_config_load(file, is_toplevel, parent, error);
+  g_config_load_depth--;
+  if (g_config_load_depth == 0 && g_world) { g_world->config_loads++; g_world->last_config_load_ok = r != nullptr; }
+  return r;
+}
+}
+
 static void probe_cb(const char *what, DBusConnection *conn, DBusMessage *msg) {
   if (!g_world) return;
   if (strcmp(what, "setup") == 0) {
@@ -177,6 +194,14 @@ void World::start_bus(const std::string &config_xml, int uniq_major, int uniq_mi
     throw core::Violation{"bus-start-failed", m};
   }
   tr.ev("bus started");
+}
+
+void World::rewrite_config(const std::string &config_xml) {
+  std::string path = scratch + "/bus.conf";
+  FILE *f = fopen(path.c_str(), "w");
+  if (!f) harness_error("cannot write %s", path.c_str());
+  fwrite(config_xml.data(), 1, config_xml.size(), f);
+  fclose(f);
 }
 
 int World::client_of_connection(DBusConnection *c) {
